@@ -167,6 +167,10 @@ def op_line(op):
         return 'setsel %d %s' % (op[1], ssels_word(op[2]))
     if k == 'insstyle':
         return 'insstyle %s %s %d' % (ssels_word(op[1]), idx_word(op[2]), op[3])
+    if k == 'setnstext':
+        return 'setnstext %d %s %s %s' % (op[1], enc(op[2]), enc(op[3]), op[4])
+    if k == 'rawdel':
+        return 'rawdel %d' % op[1]
     if k == 'insobj':
         d = dict(op[2])
         w = ','.join('+'.join(resolve_item(d, i) for i in sel) for sel in op[1])
@@ -185,7 +189,7 @@ def named_prefixes(op):
 
 
 def mentions_prefix(op):
-    if op[0] in ('insns', 'insnstext', 'setns', 'delns', 'setprefix'):
+    if op[0] in ('insns', 'insnstext', 'setns', 'delns', 'setprefix', 'setnstext'):
         return True
     if op[0] in ('setsel', 'insstyle', 'insobj'):
         sels = op[2] if op[0] == 'setsel' else op[1]
@@ -446,9 +450,32 @@ class HistoryGen:
             return self.gen_idx(n)
 
         k = rng.choices(['insns', 'insnstext', 'setns', 'delns', 'delrule', 'setprefix', 'setsel', 'insstyle',
-                         'insobj', 'parse'],
-                        weights=[14, 8, 16, 10, 10, 9, 12, 10, 5, 2])[0]
+                         'insobj', 'parse', 'setnstext', 'rawdel'],
+                        weights=[14, 8, 16, 10, 10, 9, 12, 10, 5, 2, 5, 2])[0]
+        if k == 'setnstext' and ns_idx:
+            i = rng.choice(ns_idx)
+            u = rules[i].namespaceURI if rng.random() < 0.75 else some_uri() or 'u9'
+            r = rng.random()
+            p = '' if r < 0.2 else (rng.choice(pfx_here) if r < 0.5 else rng.choice(PFX + ['s']))
+            return ('setnstext', i, p, u, ''.join(rng.choice('0001') for _ in range(3)))
+        if k == 'rawdel' and n:
+            i = rng.choice(ns_idx) if ns_idx and rng.random() < 0.7 else rng.randrange(n)
+            return ('rawdel', i, rng.choice(['del', 'pop']))
+        if k in ('setnstext', 'rawdel'):
+            k = 'setns'
+        if getattr(self, 'follow_up', False) and ns_idx:
+            # after an insert between @namespace rules: touch the surviving rule objects with a setter
+            self.follow_up = False
+            if rng.random() < 0.7:
+                return ('setprefix', rng.choice(ns_idx), rng.choice(pfx_here + ['s']))
+            return ('setns', rng.choice(pfx_here), rng.choice(uris_here))
         if k == 'insns':
+            if len(ns_idx) >= 2 and rng.random() < 0.25:
+                # a rule OBJECT between two existing @namespace rules that takes the URI of the earlier and the
+                # prefix of the later one: the clean-up removes the earlier rule and may then be refused
+                a, b = sorted(rng.sample(range(len(ns_idx)), 2))
+                self.follow_up = True
+                return ('insns', pfx_here[b], uris_here[a], rng.randint(ns_idx[a] + 1, ns_idx[b]), 0)
             return ('insns', some_prefix(), some_uri(), ns_pos(), int(rng.random() < 0.35))
         if k == 'insnstext':
             ccc = ''.join(rng.choice('0001') for _ in range(3))
@@ -500,6 +527,9 @@ def boundary_histories():
     base = [ns('p', 'u1'), st(a_p)]
     h.append([('parse', (), base), ('insns', 'p', 'u2', 1, 0)])
     h.append([('parse', (), base), ('insns', 'p', 'u2', 0, 0)])                 # clean-up raises
+    h.append([('parse', (), [ns('q', 'u1'), ns('p', 'u2'),
+                             st([T(P('q'), 'x')], [T(P('p'), 'y')], [O('['), ('q', 'a', P('p'), 'abc'), O(']')])]),
+              ('insns', 'p', 'u1', 1, 0), ('setprefix', 0, 'p'), ('setprefix', 1, 'q'), ('setns', 'q', 'u1')])
     h.append([('parse', (), [ns('q', 'u'), ns('p', 'u2'), st([T(P('q'), 'x')])]), ('insns', 'p', 'u', None, 1)])
     h.append([('parse', (), [ns('p', 'u1'), st([T('N', 'a')])]), ('insns', 'p', 'u2', 0, 0)])
     h.append([('parse', (), base), ('insns', 'q', 'u1', 0, 0), ('insns', 'q', 'u1', 1, 0), ('delns', 'q'),
@@ -533,4 +563,11 @@ def boundary_histories():
               ('insobj', [[T(P('q'), 'a')]], (('q', 'u9'),), None, 1)])
     h.append([('parse', (), [ns('p', 'u1'), ('media', [[a_p], [[T(P('q'), 'b')]]])]), ('delns', 'p')])
     h.append([('parse', (), [ns('p', '*'), st([('q', 'u', P('p'), '*')])]), ('delns', 'p')])
+    h.append([('parse', (), [ns('', 'd'), ns('q', 'e'), st([T('N', 'a')]), st([T(P('q'), 'b')])]),
+              ('setnstext', 1, '', 'e', '000')])
+    h.append([('parse', (), [ns('p', 'd', '010'), st(a_p)]), ('setnstext', 0, 'q', 'other', '000'),
+              ('setnstext', 0, 'q', 'd', '101'), ('setnstext', 0, '', 'd', '000')])
+    h.append([('parse', (), base), ('rawdel', 0, 'del')])
+    h.append([('parse', (), base), ('rawdel', 0, 'pop')])
+    h.append([('parse', (), [ns('p', 'u1'), ns('q', 'u2'), st(a_p)]), ('rawdel', 1, 'del'), ('rawdel', 1, 'pop')])
     return h
